@@ -194,3 +194,18 @@ def _merge(parts):
     p["violations"] = [{"key": k, "what": w, "replay": r} for k, w, r in total.violations]
     p["extra"] = total.extra
     return p
+
+
+def replay(ctx, path):
+    """Re-run one recorded case: ./check C19 --replay <file>"""
+    import json as _json
+    r = _json.load(open(path))["replay"]
+    x, xs = exes()
+    if "scenario" in r:
+        p = subprocess.run([xs, "conc", "replay", r["scenario"], "0", str(r.get("align", 8)), r.get("schedule", "")],
+                           capture_output=True, text=True)
+    else:
+        p = subprocess.run([x, "seq", str(r.get("depth", 2)), "0", "1"], capture_output=True, text=True)
+    print(p.stdout[-3000:])
+    print("replay exit", p.returncode)
+    return 1 if p.returncode else 0
